@@ -88,6 +88,21 @@ pub enum Act {
         oi_cap: Option<u128>,
         holding_cap: Option<u128>,
     },
+    EngConfig {
+        by: String,
+        imr: Option<u128>,
+        mmr: Option<u128>,
+        plr: Option<u128>,
+        lf: Option<u128>,
+    },
+    VammConfig {
+        by: String,
+        v: usize,
+        toll: Option<u128>,
+        spread: Option<u128>,
+        fluct: Option<u128>,
+        twap: Option<u64>,
+    },
     /// drain `amt` from the insurance fund purse (a bank/cw20 move by the harness standing for
     /// the fund having paid out elsewhere) — only used by seeds
     Note(String),
@@ -142,6 +157,8 @@ impl Act {
             | Act::RemoveVamm { by, .. }
             | Act::Shutdown { by }
             | Act::Whitelist { by, .. }
+            | Act::EngConfig { by, .. }
+            | Act::VammConfig { by, .. }
             | Act::VammCaps { by, .. } => Some(by),
             _ => None,
         }
@@ -174,6 +191,8 @@ impl Act {
             Act::Shutdown { .. } => "shutdown",
             Act::Whitelist { .. } => "whitelist",
             Act::VammCaps { .. } => "vamm_caps",
+            Act::EngConfig { .. } => "engine_config",
+            Act::VammConfig { .. } => "vamm_config",
             Act::Note(_) => "note",
         }
     }
@@ -438,6 +457,41 @@ pub fn apply_fault(w: &mut World, a: &Act, fail_at: Option<u32>) -> Outcome {
                     insurance_fund: None,
                     pricefeed: None,
                     spot_price_twap_interval: None,
+                },
+                0,
+                fail_at,
+            )
+        }
+        Act::EngConfig { by, imr, mmr, plr, lf } => w.exec_full(
+            by,
+            &eng,
+            &EngineExec::UpdateConfig {
+                owner: None,
+                insurance_fund: None,
+                fee_pool: None,
+                initial_margin_ratio: imr.map(Uint128::new),
+                maintenance_margin_ratio: mmr.map(Uint128::new),
+                partial_liquidation_ratio: plr.map(Uint128::new),
+                liquidation_fee: lf.map(Uint128::new),
+            },
+            0,
+            fail_at,
+        ),
+        Act::VammConfig { by, v, toll, spread, fluct, twap } => {
+            let va = vamm_addr(w, *v);
+            w.exec_full(
+                by,
+                &va,
+                &VammExec::UpdateConfig {
+                    base_asset_holding_cap: None,
+                    open_interest_notional_cap: None,
+                    toll_ratio: toll.map(Uint128::new),
+                    spread_ratio: spread.map(Uint128::new),
+                    fluctuation_limit_ratio: fluct.map(Uint128::new),
+                    margin_engine: None,
+                    insurance_fund: None,
+                    pricefeed: None,
+                    spot_price_twap_interval: *twap,
                 },
                 0,
                 fail_at,
